@@ -536,8 +536,12 @@ func Run(cfg *hx.Config) error {
 	logger.SetLogLevel(logrus.PanicLevel)
 	logger.GetLogProxy("default").SetLogLevel(logrus.PanicLevel)
 	logger.GetLogProxy("exception").SetLogLevel(logrus.PanicLevel)
-	if err := selfCheck(); err != nil {
-		return err
+	// the model's weight (5000 * GetBusyWeight as an integer) is justified by this sweep; when it
+	// fails the cases below still run - the busy-weight grid turns the failing count into a
+	// concrete history (two services, an allocation that must go to the less busy one)
+	wfail := selfCheck()
+	if wfail != nil {
+		fmt.Println("c19 selfCheck:", wfail)
 	}
 	if cfg.In != "" {
 		cs, err := hx.ReadCases(cfg.In)
@@ -574,6 +578,29 @@ func Run(cfg *hx.Config) error {
 			obs, nt := Exec(ops)
 			emit(hx.Case{Kind: fmt.Sprintf("holes-%d", k), Ops: ops, Obs: obs, Nontrivial: nt, Tags: []string{"holes"}})
 		})
+	}
+	// busy-weight grid: two or three working services with scene counts around every kink of
+	// GetBusyWeight (1000 scenes = "ratio 1", 5000 = the cap), then an allocation: it must land on
+	// the least busy one
+	grid := []int64{0, 1, 999, 1000, 1001, 1200, 2500, 3600, 4100, 4998, 4999}
+	if wfail != nil {
+		var n int64
+		if _, err := fmt.Sscanf(wfail.Error()[strings.Index(wfail.Error(), "n=")+2:], "%d", &n); err == nil {
+			grid = append(grid, n-1, n, n+1)
+		}
+	}
+	for _, a := range grid {
+		for _, b := range grid {
+			if a == b {
+				continue
+			}
+			ops := []hx.T{hx.C("ORefresh", int64(1), a), hx.C("ORefresh", int64(2), b), hx.C("OAlloc", int64(101))}
+			if (a+b)%3 == 0 {
+				ops = []hx.T{hx.C("ORefresh", int64(1), a), hx.C("ORefresh", int64(2), b), hx.C("ORefresh", int64(3), a+b+7), hx.C("OAlloc", int64(101)), hx.C("OAlloc", int64(102))}
+			}
+			obs, nt := Exec(ops)
+			emit(hx.Case{Kind: "busy-weight-grid", Ops: ops, Obs: obs, Nontrivial: nt, Tags: []string{"busy-weight-grid"}})
+		}
 	}
 	for i := 0; i < cfg.N; i++ {
 		if i%4 == 1 {
